@@ -15,7 +15,7 @@
    those rest on the correspondence check under catch_unwind and are reported as partial. *)
 From FR Require Import Base State Utf8 Utf8Facts Chars Ast Analyze Sem SemSound Api ApiProofs
                        Vm Compile Machine Atomize CompileCorrect RunCorrect EndToEnd.
-From FR Require Import Param ArrowA KeepOut ApiVm.
+From FR Require Import Param ArrowA KeepOut ApiVm Scope.
 
 From Coq Require Import NArith Lia.
 
